@@ -108,6 +108,17 @@ def _real_coords(name, args):
         es = np.array([float(C.tofrac(t)) for t in args[0].split(",")])
         ns = np.array([float(C.tofrac(t)) for t in args[1].split(",")])
         return [C.frs(Fraction(float(v))) for v in co.get_region((es, ns))]
+    if name == "lineCoordinates":
+        a_, b_ = float(C.tofrac(args[0])), float(C.tofrac(args[1]))
+        size = None if args[2] == "none" else int(args[2])
+        sp = None if args[3] == "none" else float(C.tofrac(args[3]))
+        try:
+            r = co.line_coordinates(a_, b_, size=size, spacing=sp, adjust=args[4], pixel_register=args[5] == "true")
+        except ValueError:
+            return ["err"]
+        except (IndexError, TypeError):
+            return ["err2"]
+        return [",".join(C.frs(Fraction(float(v))) for v in r) if len(r) else "-"]
     if name == "shapeToSpacing":
         w, e, s, n = (float(C.tofrac(t)) for t in args[:4])
         try:
@@ -156,8 +167,12 @@ def _differs(kind, a, b):
             elif x != y:
                 return True
         else:
-            if x in ("true", "false", "err", "ok") or y in ("true", "false", "err", "ok"):
+            if x in ("true", "false", "err", "err2", "ok", "-") or y in ("true", "false", "err", "err2", "ok", "-"):
                 if x != y:
+                    return True
+            elif "," in x or "," in y:
+                xs, ys = x.split(","), y.split(",")
+                if len(xs) != len(ys) or any(abs(C.tofrac(t) - C.tofrac(u)) > Fraction(1, 10**11) * max(1, abs(C.tofrac(u))) for t, u in zip(xs, ys)):
                     return True
             elif C.tofrac(x) != C.tofrac(y):
                 return True
